@@ -197,7 +197,7 @@ pub fn def_c06() -> PropDef {
         title: "The hit list is each record's own verdict, cut to the best `limit`",
         rule: "random stores of 1-60 records built from a tiny per-case vocabulary (many candidates per query), unique ids, ratings pairwise distinct in half of the cases and tie-heavy (0-3) in the other half, limit 0..|store|+2, 1-2 related queries. Each record is additionally searched alone in a one-record store built in a fresh thread, and the whole store with limit |store|+3. Exact order is compared only with distinct ratings and |store| <= 10*limit. Non-trivial = the unlimited list is longer than the limit, or the store is larger than 2*limit with >= 1 hit; distinct = distinct world",
         assumptions: &["with rating ties only length and membership of the limited list are compared (the order among fully tied hits is unspecified)"],
-        spaces: vec![Space { name: "world", decode: decode_c06, plan: |t| Plan::Random(t.n(10_000, 400_000)) }],
+        spaces: vec![Space { name: "world", decode: decode_c06, plan: |t| Plan::Random(t.n(20_000, 500_000)) }],
         differential: false,
     }
 }
@@ -208,7 +208,16 @@ pub fn def_c06() -> PropDef {
 pub struct C07Case(pub RankWorld);
 
 pub fn decode_c07(src: &mut Source) -> Box<dyn Case> {
-    Box::new(C07Case(gen_rank_world(src, true, true)))
+    let mut w = gen_rank_world(src, true, true);
+    // ratings are `usize`: the order must stay consistent over the whole range, not only for
+    // small numbers (timestamps used as ratings are >= 2^31). The shift keeps them distinct.
+    match src.weighted(&[5, 1, 1, 1]) {
+        1 => w.recs.iter_mut().for_each(|r| r.2 += 1usize << 31),
+        2 => w.recs.iter_mut().for_each(|r| r.2 = (r.2 << 20) + (1usize << 40)),
+        3 => w.recs.iter_mut().for_each(|r| r.2 = (1usize << 32) - 1 - r.2),
+        _ => {}
+    }
+    Box::new(C07Case(w))
 }
 
 impl Case for C07Case {
@@ -267,6 +276,7 @@ impl Case for C07Case {
             }
             ctx.label_if(hits.len() >= 3, ">=3-hits");
             ctx.label_if(!identity, "non-identity-permutation");
+            ctx.label_if(w.recs.iter().any(|r| r.2 >= 1usize << 31), "ratings>=2^31");
             if hits.len() >= 3 && !identity {
                 ctx.nontrivial();
             }
@@ -281,7 +291,7 @@ pub fn def_c07() -> PropDef {
         title: "Ranking is a consistent order, independent of other records and insert order",
         rule: "random stores as C06 but always with pairwise distinct ratings and |store| <= 10*limit; metamorphic: (i) the same records inserted in a random permutation give the identical hit list; (ii) for up to 3 sampled pairs of hits (a before b) both two-record stores [a,b] and [b,a], built in fresh threads, list a before b. Non-trivial = >= 3 hits and a non-identity permutation; distinct = distinct world",
         assumptions: &["a pair member that is not a hit in its two-record store is C06's business and only counted here"],
-        spaces: vec![Space { name: "world", decode: decode_c07, plan: |t| Plan::Random(t.n(20_000, 600_000)) }],
+        spaces: vec![Space { name: "world", decode: decode_c07, plan: |t| Plan::Random(t.n(80_000, 1_500_000)) }],
         differential: false,
     }
 }
@@ -459,7 +469,7 @@ pub fn def_c12() -> PropDef {
         title: "An empty query lists the top-rated records",
         rule: "random stores of 0-40 records whose titles are 1-3 words over a vocabulary of 2-4 one-to-three-letter words with case / accent variants that normalise equal (duplicate and near-duplicate titles), ratings pairwise distinct or drawn from {0,1,2}, limit 0..|store|+2, a separator-only query; in half of the cases the history variant: search, add 1-6 more records, search again, change the limit, search again. Non-trivial = a rating tie straddling the cut (n > limit > 0), or the history variant; distinct = distinct case",
         assumptions: &["title order is the code-point order of the full public normalised character array of the record"],
-        spaces: vec![Space { name: "store", decode: decode_c12, plan: |t| Plan::Random(t.n(80_000, 2_500_000)) }],
+        spaces: vec![Space { name: "store", decode: decode_c12, plan: |t| Plan::Random(t.n(250_000, 4_000_000)) }],
         differential: false,
     }
 }
